@@ -3,6 +3,7 @@
    AES-256 key) ARE Format.v's AEAD aseal_gcm (SP 800-38D one-shot, GcmSpec.v) under the archive
    key with the per-chunk nonce nonce8 . BE32(j): the hypothesis [cipher_agrees] of
    FormatWriterBridge.format_decode_writer_enc holds for them.  No axioms. *)
+From MLA Require Import Limit.
 From MLA Require Import Base EncLayer InstGcm Format FormatProofs FormatWriterBridge.
 From MLA Require GcmProofs.
 From MLA.Concrete Require Import Aes Ghash GcmSpec.
@@ -19,6 +20,7 @@ Proof.
 Qed.
 
 Section Rk.
+  Context {LIM : Limit}.
   Variable rk : list bytes.
   Hypothesis Hne : rk <> [].
   Hypothesis Hrk : Forall (fun k => length k = 16%nat) rk.
